@@ -23,7 +23,7 @@ ASSUMPTIONS = ["group, name and filter strings are C strings (no NUL byte)",
                "tests do not fail, crash or run in a separate process (C01/C11 cover those)",
                "through the command line: repeat >= 1 and shuffle seed in 1..2^32-1 (what the option syntax can express)"]
 CRASH_IS_VIOLATION = True
-PER_TIMEOUT = 20.0
+PER_TIMEOUT = 8.0
 ALPHA = [0x61, 0x62, 0x63]
 _libc = None
 
@@ -351,6 +351,9 @@ def diagnose(d, o):
     exe = [sel[i] and (not tests[i][2] or bool(d["ri"])) for i in range(n)]
     ign = [sel[i] and bool(tests[i][2]) and not d["ri"] for i in range(n)]
     how = "shuffle" if d["shuffle"] else "reverse" if d["rev"] else "plain"
+    for r in reps:        # a broken list stops the harness early: report the order, not the missing repetitions
+        if sorted(r["order"]) != list(range(n)):
+            return "order is not a permutation: a test lost or duplicated (%s)" % how
     if len(reps) != d["repeat"]:
         return "number of repetitions wrong"
     for r in reps:
